@@ -106,6 +106,10 @@ def FmtTotal (o : Oracles) : Prop := ∀ n, (o.fmtDays n).isSome = true
 @[simp] theorem erEnts_nil (o) : erEnts o [] = [] := by simp [erEnts]
 @[simp] theorem erEnts_cons (o k v es) : erEnts o ((k, v) :: es) = (k, er o v) :: erEnts o es := by simp [erEnts]
 
+@[simp] theorem erEnts_cons' (o : Oracles) (e : Key × YVal) (es) :
+    erEnts o (e :: es) = (e.1, er o e.2) :: erEnts o es := by
+  obtain ⟨k, v⟩ := e; simp
+
 theorem erList_strs (o : Oracles) (xs : List Bytes) : erList o (xs.map .str) = xs.map .str := by
   induction xs with
   | nil => rfl
